@@ -1,6 +1,6 @@
 #!/usr/bin/env python3
 """Prints the prompt given to an independent sub-agent that seeds bugs for one property (property text + scratch worktree only)."""
-import json, sys
+import json, sys, os
 props = {json.loads(l)['id']: json.loads(l) for l in open('/verif/properties.jsonl')}
 TMPL = '''You are given a git worktree of the Python library obersteiner/sparseSpACE at WT (package `sparseSpACE/`, tests in `test/`, run with `/venv/bin/python -m pytest -q -p no:cacheprovider test/<file>.py` from the worktree root; to import the worktree's code in your own scripts run them from the worktree root with `PYTHONPATH=WT /venv/bin/python script.py` and verify `sparseSpACE.__file__` points into WT). Work ONLY inside WT; do not read or write /verif or /repo. No network.
 
@@ -18,7 +18,17 @@ Requirements for the changes:
 * Each of the @n changes should attack a different clause of the statement / a different code site.
 Deliver for each change k=1..@n a directory WT/seed_<k>/ containing: `patch.diff` (output of `git diff` relative to HEAD with ONLY that change applied; make sure `git apply` works on a clean checkout), `demo.py`, and `meta.json` with keys: "property" ("@pid"), "clause" (which clause it breaks), "needs" (what is needed to manifest), "files" (touched files), "tests_run" (test files you ran and their result with the change), "demo_unmodified_exit" (0), "demo_modified_exit" (non-zero). After writing the seed directories, restore the worktree to a clean state (`git checkout -- .`), leaving only the seed_<k> directories untracked. Final answer: for each change one paragraph (what, where, why subtle, how the demo shows it).'''
 pid = sys.argv[1]; n = sys.argv[2] if len(sys.argv) > 2 else "2"
+import glob, os
+used = []
+for f in sorted(glob.glob('/verif/seeded/%s-*/meta.json' % pid)):
+    m = json.load(open(f))
+    used.append("- %s: %s" % (", ".join(m.get("files", [])) if isinstance(m.get("files"), list) else m.get("files", ""), str(m.get("clause", ""))[:300].replace("\n", " ")))
+extra = ""
+if used:
+    extra = "\n\nIdeas ALREADY USED in an earlier round (do not repeat them or close variants; attack other clauses / other code sites / other configurations):\n" + "\n".join(used)
+extra += "\n\nIMPORTANT: never use `git stash` (the stash is shared between all worktrees of this repository and other people use sibling worktrees concurrently); to switch between clean and modified code use `git diff > /tmp/<yourname>.patch; git checkout -- .` and `git apply`. Before writing patch.diff check `git status` / `git diff` for stray hunks that are not yours. Several `fix:` commits were made recently; your worktree is at the current HEAD."
+
 p = props[pid]
-s = (TMPL.replace('WT', '/tmp/wt/m_' + pid.lower()).replace('@title', p['title']).replace('@statement', p['statement'])
+s = (TMPL.replace('WT', '/tmp/wt/' + os.environ.get('WT_PREFIX', 'm_') + pid.lower()).replace('@title', p['title']).replace('@statement', p['statement'])
      .replace('@quant', p['quantifier']['text']).replace('@files', ', '.join(p['anchors']['files'])).replace('@n', n).replace('@pid', pid))
-print(s)
+print(s + extra)
